@@ -92,6 +92,16 @@ fn long_cases() -> Vec<Case> {
             v.push(c);
         }
     }
+    // enough frames for a two-byte frame number well inside its range (the frame-size bounds of
+    // STREAMINFO come from count_bits in one mode and from the precomputed bytes in the other)
+    for &(full, atom) in &[(1300u32, 1u8), (2100, 19)] {
+        let mut c = universe::decode(&universe::base_points()[0]);
+        c.input.bs = 32;
+        c.input.full = full;
+        c.input.tail = 0;
+        c.input.atoms = [atom; 4];
+        v.push(c);
+    }
     v
 }
 
